@@ -45,6 +45,8 @@ def disc (s : Stack) : TStore SvcKey × List (Bool × SvcKey × Addr) := (s.foun
 @[simp] theorem disc_with_subLog (s : Stack) (x : List (Addr × Nat × List Eventgroup)) : disc { s with subLog := x } = disc s := rfl
 @[simp] theorem disc_with_findLog (s : Stack) (x : List (Nat × Nat)) : disc { s with findLog := x } = disc s := rfl
 @[simp] theorem disc_with_findMarks (s : Stack) (x : List (Nat × Nat)) : disc { s with findMarks := x } = disc s := rfl
+@[simp] theorem disc_with_ansLog (s : Stack) (x : List (Nat × Addr × Nat × Nat)) : disc { s with ansLog := x } = disc s := rfl
+@[simp] theorem disc_logAnswer (s : Stack) (i : Nat) (a : Addr) (d : Nat) : disc (s.logAnswer i a d) = disc s := rfl
 @[simp] theorem disc_markFind (s : Stack) (n : Nat) : disc (s.markFind n) = disc s := rfl
 @[simp] theorem disc_with_offLog (s : Stack) (x : List (Nat × OEv × Nat)) : disc { s with offLog := x } = disc s := rfl
 @[simp] theorem disc_logOffer (s : Stack) (i : Nat) (e : OEv) : disc (s.logOffer i e) = disc s := rfl
